@@ -37,6 +37,9 @@ Check C02_trade_ids_step : forall i fs f, Forall (valid_fill i) fs -> valid_fill
       (snd s' = snd s /\ trades_pm (fst s') = (p_trades p ++ [f_id f])%list)
   end.
 
+Check C02_oracle_sound : forall c,
+  Corr.C02.wf_case c = true -> Corr.C02.corr_b c = true -> Corr.C02.prop_b c = true.
+
 (* the definitions the statements rest on, pinned by evaluation *)
 Check eq_refl : valid_fill = fun i f => f_inst f = i /\ 0 < f_qty f.
 Check eq_refl : prun = fun fs => fold_left pstep fs (None, []%list).
